@@ -173,7 +173,8 @@ func Explore(prog *ssa.Program, j *Job) *JobResult {
 			defer wg.Done()
 			ctx := NewCtx()
 			sol := NewSolver(ctx, j.Solver, j.IntMode, j.TimeoutMs)
-			defer sol.Close()
+			defer func() { sol.Close() }()
+			cache := newSatCache()
 			npaths := 0
 			for {
 				mu.Lock()
@@ -203,13 +204,14 @@ func Explore(prog *ssa.Program, j *Job) *JobResult {
 
 				gSem <- struct{}{}
 				npaths++
-				if npaths%200 == 0 {
+				if npaths%2000 == 0 || len(cache.m) > 400000 {
 					// keep term tables from growing without bound
 					sol.Close()
 					ctx = NewCtx()
 					sol = NewSolver(ctx, j.Solver, j.IntMode, j.TimeoutMs)
+					cache = newSatCache()
 				}
-				alts := runPath(prog, j, ctx, sol, prefix)
+				alts := runPath(prog, j, ctx, sol, cache, prefix)
 				<-gSem
 
 				mu.Lock()
@@ -225,10 +227,10 @@ func Explore(prog *ssa.Program, j *Job) *JobResult {
 	return &j.res
 }
 
-func runPath(prog *ssa.Program, j *Job, ctx *Ctx, sol *Solver, prefix []int) (alts [][]int) {
+func runPath(prog *ssa.Program, j *Job, ctx *Ctx, sol *Solver, cache *SatCache, prefix []int) (alts [][]int) {
 	sol.Reset()
 	sol.lastErr = ""
-	it := &Interp{prog: prog, ctx: ctx, sol: sol, job: j, prefix: prefix,
+	it := &Interp{prog: prog, ctx: ctx, sol: sol, job: j, prefix: prefix, cache: cache,
 		globals: map[*ssa.Global]*Cell{}, initDone: map[*ssa.Package]bool{}, names: map[string]int{},
 		mutex: map[*Cell]int{}, covers: map[string]bool{}, unwind: map[*ssa.BasicBlock]int{}, fs: newFS(), ghost: map[string]Value{}, funcs: map[string]bool{}, probes: map[string]Value{}}
 	outcome := "ok"
@@ -283,6 +285,9 @@ func runPath(prog *ssa.Program, j *Job, ctx *Ctx, sol *Solver, prefix []int) (al
 	}
 	for i := range it.violations {
 		it.violations[i].Extra = map[string]string{"inputs": it.inputsJSON(it.violations[i].Model)}
+	}
+	if os.Getenv("SYMGO_DEBUG") != "" {
+		fmt.Fprintf(os.Stderr, "path %v -> %s %s (steps %d, queries %d, pc %d)\n", it.taken, outcome, detail, it.steps, it.nQueries, len(it.pc))
 	}
 	j.mu.Lock()
 	j.res.Outcomes[outcome]++
